@@ -276,6 +276,35 @@ func readPayload(v walletref.Version, payload []byte) (*payloadFacts, error) {
 	return f, nil
 }
 
+// drawUsage draws what a wallet's on-chain data holds besides the seqno once the wallet has been in use:
+// installed plugins (v4) / extensions (v5), the v5r1 signature switch, highload bookkeeping. The property
+// speaks of "the seqno stored in the account's on-chain data" of an active account, not of freshly deployed
+// data only, so any data cell the contract can have written is a legal input. v1-v3 data has no such part.
+func drawUsage(c *core.Ctx, v walletref.Version) walletref.Usage {
+	var u walletref.Usage
+	if c.Weighted("data", 2, 3) == 0 {
+		return u
+	}
+	switch v.Family() {
+	case walletref.FamV4, walletref.FamV5Beta, walletref.FamV5R1:
+		n := c.Range("plugins", 1, 4)
+		for i := 0; i < n; i++ {
+			wc := wtest.DrawWorkchain(c, fmt.Sprintf("plugin%d.wc", i))
+			u.Plugins = append(u.Plugins, walletref.StdAddr(wc, c.Content(fmt.Sprintf("plugin%d.hash", i), 32)))
+		}
+		if v.Family() == walletref.FamV5R1 {
+			u.SignatureDisabled = c.Bool("signature disabled")
+		}
+	case walletref.FamHighloadV2:
+		u.LastCleaned = c.U64("last cleaned")
+		n := c.Range("old queries", 0, 3)
+		for i := 0; i < n; i++ {
+			u.OldQueries = append(u.OldQueries, c.U64(fmt.Sprintf("query%d", i)))
+		}
+	}
+	return u
+}
+
 var sendCheck = &core.Check{Name: "c15/send", Quick: 2500, Thorough: 150000, Fn: func(c *core.Ctx) error {
 	if err := selfCheck(); err != nil {
 		return err
@@ -296,10 +325,18 @@ var sendCheck = &core.Check{Name: "c15/send", Quick: 2500, Thorough: 150000, Fn:
 	sendFails := c.Weighted("send error", 8, 1) == 1
 	useV2 := c.Bool("SendV2")
 	nmsgs := c.Range("messages", 0, 2)
+	// drawn last: replay tapes recorded before this draw existed keep their meaning (data as deployed)
+	var usage walletref.Usage
+	if acc == accActive {
+		usage = drawUsage(c, vp.Ref)
+	}
 	c.Note("version", vp.Ref.String())
 	c.Note("options", o.String())
 	c.Note("account", accNames[acc])
 	c.Note("stored_seqno", stored)
+	if acc == accActive {
+		c.Note("stored_data", usage.String())
+	}
 	c.Note("state_error", stateFails)
 	c.Note("send_error", sendFails)
 	c.Class(vp.Ref.String())
@@ -319,7 +356,9 @@ var sendCheck = &core.Check{Name: "c15/send", Quick: 2500, Thorough: 150000, Fn:
 		if err != nil {
 			return fmt.Errorf("HARNESS: %v", err)
 		}
-		chain.State = wtest.StateActive(id, 1000, code, wtest.MustCell(walletref.DataCell(vp.Ref, uint64(stored), pub, ids)))
+		data := walletref.UsedDataCell(vp.Ref, uint64(stored), pub, ids, usage)
+		c.Note("data_cell", data.Bits().FiftHex()+fmt.Sprintf(" + %d refs", len(data.Refs)))
+		chain.State = wtest.StateActive(id, 1000, code, wtest.MustCell(data))
 	case accFrozen:
 		var h [32]byte
 		copy(h[:], addr.Hash[:])
@@ -420,6 +459,14 @@ var sendCheck = &core.Check{Name: "c15/send", Quick: 2500, Thorough: 150000, Fn:
 		if stored > 0 {
 			c.Class("active, stored seqno > 0")
 		}
+		if len(usage.Plugins) > 0 {
+			c.Class(fmt.Sprintf("active, %v data with %d plugins/extensions", vp.Ref, len(usage.Plugins)))
+			if usage.SignatureDisabled {
+				c.Class("active, v5r1 signature disabled")
+			}
+		} else if !usage.Empty() {
+			c.Class("active, highload data with cleaning time / old queries")
+		}
 	default:
 		if f.init == nil {
 			return fmt.Errorf("account is %s and the message carries no initial state", accNames[acc])
@@ -431,8 +478,8 @@ var sendCheck = &core.Check{Name: "c15/send", Quick: 2500, Thorough: 150000, Fn:
 			return fmt.Errorf("seqno %d for an account that is %s", f.seqno, accNames[acc])
 		}
 	}
-	if o.NonDefault() || (acc == accActive && stored > 0) {
-		c.NonTrivial(vp.Ref.String(), addr.String(), acc, stored)
+	if o.NonDefault() || (acc == accActive && (stored > 0 || !usage.Empty())) {
+		c.NonTrivial(vp.Ref.String(), addr.String(), acc, stored, usage.String())
 	}
 	return nil
 }}
